@@ -127,6 +127,21 @@ Definition build_raw (minR maxR : Z) (eps : list ep) : option (float * float * l
   let sc := scale_of (minw s eps) minR maxR in
   outer sc s (sort_eps eps) 0%float 0%float.
 
+(* domain check of the model: every cumulative float target is finite, not below the
+   previous one, and at most 2^52 (so the float counter currentHashes stays an exactly
+   represented integer).  True for every ring size the configuration parser admits; the
+   model refuses (BadCase) to build outside this domain. *)
+Definition two52 : float := 0x1p52%float.
+Fixpoint tgts_okb (sc : float) (s : Z) (eps : list ep) (tgt : float) : bool :=
+  match eps with
+  | [] => true
+  | e :: r => let tgt' := (tgt + sc * nwt s e)%float in
+              PrimFloat.leb tgt tgt' && PrimFloat.leb tgt' two52 && tgts_okb sc s r tgt'
+  end.
+Definition tgts_ok (minR maxR : Z) (eps : list ep) : bool :=
+  let s := wsum eps in
+  tgts_okb (scale_of (minw s eps) minR maxR) s (sort_eps eps) 0%float.
+
 Definition new_ring (minR maxR : Z) (eps : list ep) : option (list entry) :=
   match build_raw minR maxR eps with
   | Some (_, _, es) => Some (sort_items es)
@@ -200,6 +215,23 @@ Definition pick_req (ring : list entry) (sts : list (Z * Z)) (h : Z) : presult :
 Definition pick_rnd (ring : list entry) (sts : list (Z * Z)) (h : Z) : presult :=
   walk_rnd (length ring) ring sts (pick_idx ring h) 0 (has_connecting sts) [].
 
+(* the head of picker.Pick: where the request hash comes from.
+   hdr  <> 0: requestHashHeader is configured;  xdsp <> 0: the context carries the xDS
+   request hash xh;  mdp <> 0: the context has outgoing metadata, with nvals values for
+   the header;  hj = xxhash(strings.Join(values, ",")) (uninterpreted: table value);
+   r = the value randUint64() returns. *)
+Inductive hsrc := SrcErr | SrcReq (h : Z) | SrcRnd (h : Z).
+Definition hash_source (hdr xdsp xh mdp : Z) (nvals : nat) (hj r : Z) : hsrc :=
+  if hdr =? 0 then (if xdsp =? 0 then SrcErr else SrcReq (u64 xh))
+  else if (mdp =? 0) || Nat.eqb nvals 0 then SrcRnd (u64 r) else SrcReq (u64 hj).
+(* code 2 = Pick fails without consulting any child picker (no request hash) *)
+Definition pick_src (ring : list entry) (sts : list (Z * Z)) (src : hsrc) : presult :=
+  match src with
+  | SrcErr => (2, -1, [])
+  | SrcReq h => pick_req ring sts h
+  | SrcRnd h => pick_rnd ring sts h
+  end.
+
 (* ---------- cases ----------
    cfg  [minRingSize; maxRingSize; N; then per endpoint: key; weight; L; h_0 .. h_(L-1)]
         (hashes as int64, i.e. uint64 reinterpreted)
@@ -211,7 +243,12 @@ Definition pick_rnd (ring : list entry) (sts : list (Z * Z)) (h : Z) : presult :
         [3; h; s_0..s_(N-1)]  Pick with request hash h, endpoint i in state s_i
                            obs [code; key; nexit; exit keys...]
         [4; h; s_0..s_(N-1)]  Pick with the random hash h   obs as for 3
-        (2-4 without a non-empty current ring: ignored, obs [])                        *)
+        [5; hdr; xdsp; xh; mdp; nv; v_1..v_nv; hj; r; s_0..s_(N-1)]
+                           Pick with the hash source chosen by the real code: header
+                           configured or not, xDS hash in the context or not, outgoing
+                           metadata with the header values v_1..v_nv (value ids; hj is
+                           the real xxhash of their join) or without   obs as for 3
+        (2-5 without a non-empty current ring: ignored, obs [])                        *)
 
 Fixpoint take_eps (n : nat) (w : word) : option (list ep) :=
   match n with
@@ -290,10 +327,12 @@ Definition step (c : config) (s : mstate) (op : word) : option (mstate * word) :
   | 1 :: idxs =>
     match select c idxs with
     | Some eps =>
-      match new_ring (minR c) (maxR c) eps with
-      | Some r => Some (mkst r idxs, ring_obs r)
-      | None => None
-      end
+      if tgts_ok (minR c) (maxR c) eps then
+        match new_ring (minR c) (maxR c) eps with
+        | Some r => Some (mkst r idxs, ring_obs r)
+        | None => None
+        end
+      else None
     | None => Some (s, [])
     end
   | [2; h] =>
@@ -311,6 +350,16 @@ Definition step (c : config) (s : mstate) (op : word) : option (mstate * word) :
     match cur_ring s with
     | [] => Some (s, [])
     | r => Some (s, presult_obs (pick_rnd r (sts_of c (cur_idx s) ss) (u64 h)))
+    end
+  | 5 :: hdr :: xdsp :: xh :: mdp :: rest =>
+    match get_bytes rest with
+    | Some (vals, hj :: r :: ss) =>
+      match cur_ring s with
+      | [] => Some (s, [])
+      | rg => Some (s, presult_obs (pick_src rg (sts_of c (cur_idx s) ss)
+                                      (hash_source hdr xdsp xh mdp (length vals) hj r)))
+      end
+    | _ => None
     end
   | _ => None
   end.
@@ -339,9 +388,11 @@ Definition run (cfg : word) (ops : list word) : option (list word) :=
    2  ring well-formed: hashes strictly increasing; the entries of every selected endpoint
       are exactly the first c_k hashes of its table (idx 0..c_k-1); no foreign entries
    3  size >= min_ring_size (when min <= max)
-   4  size <= max_ring_size - or at most max+1 in the overshoot class of clause 5
+   4  size <= max_ring_size, outside the overshoot class of clause 5
    5  FINDING clause: size <= max_ring_size in the class where the float64 accumulation
-      of the targets ends above float64(max_ring_size) (model-computed)
+      of the targets ends above float64(max_ring_size) (model-computed; by
+      RingHashFlt_proofs.size_float this is exactly the class where size > max)
+   7  inside the overshoot class the ring has at most max+1 entries
    6  proportionality: |c_k - scale * w_k/sum| < 2 for every selected endpoint
    8  ring.pick: first entry with hash >= h, else entry 0
    9  request-hash Pick: first entry clockwise from pick(h) whose endpoint is not in
@@ -350,7 +401,11 @@ Definition run (cfg : word) (ops : list word) : option (list word) :=
       (ErrNoSubConnAvailable) when a connection attempt exists or was requested, else the
       pick(h) entry's picker
    11 random-hash Pick: at most one exitIdle, none when an endpoint is CONNECTING, and
-      only on the first IDLE endpoint clockwise (before the first READY one)            *)
+      only on the first IDLE endpoint clockwise (before the first READY one)
+   12 hash source: no header configured -> the xDS hash (absent: error, no child picker
+      consulted); header configured -> xxhash of the comma-joined header values with the
+      request-hash walk (9), or, without metadata / values, the random hash with the
+      random-hash walk (10, 11)                                                         *)
 
 Fixpoint decode_ring (w : word) : option (list entry) :=
   match w with
@@ -477,10 +532,26 @@ Definition cl_build (c : config) (cs : cstate) (pos : Z) (idxs : list Z) (o : wo
        [(1, pos, match lookup_set (cs_hist cs) sset with Some o' => word_eqb o o' | None => true end);
         (2, pos, ring_wf ring eps);
         (3, pos, if mn <=? mx then mn <=? n else true);
-        (4, pos, if ov then n <=? mx + 1 else n <=? mx);
+        (4, pos, if ov then true else n <=? mx);
         (5, pos, if ov then n <=? mx else true);
+        (7, pos, if ov then n <=? mx + 1 else true);
         (6, pos, forallb (prop_ok mn mx eps ring) eps)])
     end
+  end.
+
+Definition cl_req (r : list entry) (sts : list (Z * Z)) (h : Z) (o : word) : bool :=
+  word_eqb o (presult_obs (spec_req r sts (spec_pick r h))).
+Definition cl_rnd_a (r : list entry) (sts : list (Z * Z)) (h : Z) (o : word) : bool :=
+  match o with
+  | code :: k :: _ => let '(c0, k0) := spec_rnd r sts (spec_pick r h) in (code =? c0) && (k =? k0)
+  | _ => false
+  end.
+Definition cl_rnd_b (r : list entry) (sts : list (Z * Z)) (h : Z) (o : word) : bool :=
+  match o with
+  | _ :: _ :: nx :: ex =>
+    (nx =? zlen ex) && (nx <=? 1) && (if has_connecting sts then nx =? 0 else true) &&
+    word_eqb ex (spec_rnd_exits r sts (spec_pick r h))
+  | _ => false
   end.
 
 Definition cl_step (c : config) (cs : cstate) (pos : Z) (op o : word)
@@ -500,24 +571,30 @@ Definition cl_step (c : config) (cs : cstate) (pos : Z) (op o : word)
   | 3 :: h :: ss =>
     match cs_ring cs with
     | [] => (cs, [(0, pos, match o with [] => true | _ => false end)])
-    | r =>
-      let sts := sts_of c (cs_idx cs) ss in
-      (cs, [(9, pos, word_eqb o (presult_obs (spec_req r sts (spec_pick r (u64 h)))))])
+    | r => (cs, [(9, pos, cl_req r (sts_of c (cs_idx cs) ss) (u64 h) o)])
     end
   | 4 :: h :: ss =>
     match cs_ring cs with
     | [] => (cs, [(0, pos, match o with [] => true | _ => false end)])
     | r =>
       let sts := sts_of c (cs_idx cs) ss in
-      let start := spec_pick r (u64 h) in
-      match o with
-      | code :: k :: nx :: ex =>
-        (cs, [(10, pos, let '(c0, k0) := spec_rnd r sts start in (code =? c0) && (k =? k0));
-              (11, pos, (nx =? zlen ex) && (nx <=? 1) &&
-                        (if has_connecting sts then nx =? 0 else true) &&
-                        word_eqb ex (spec_rnd_exits r sts start))])
-      | _ => (cs, [(10, pos, false)])
+      (cs, [(10, pos, cl_rnd_a r sts (u64 h) o); (11, pos, cl_rnd_b r sts (u64 h) o)])
+    end
+  | 5 :: hdr :: xdsp :: xh :: mdp :: rest =>
+    match get_bytes rest with
+    | Some (vals, hj :: rr :: ss) =>
+      match cs_ring cs with
+      | [] => (cs, [(0, pos, match o with [] => true | _ => false end)])
+      | r =>
+        let sts := sts_of c (cs_idx cs) ss in
+        (cs, [(12, pos,
+               match hash_source hdr xdsp xh mdp (length vals) hj rr with
+               | SrcErr => word_eqb o [2; -1; 0]
+               | SrcReq h => cl_req r sts h o
+               | SrcRnd h => cl_rnd_a r sts h o && cl_rnd_b r sts h o
+               end)])
       end
+    | _ => (cs, [(0, pos, false)])
     end
   | _ => (cs, [(0, pos, false)])
   end.
@@ -538,11 +615,12 @@ Definition clauses (cfg : word) (ops obs : list word) : list (Z * Z * bool) :=
   | None => [(0, 0, false)]
   end.
 
-(* the clauses of ring.pick and picker.Pick (and the decoding clause 0) are proved to hold
-   on every model trace (RingHash_proofs.model_trace_holds); the ring-construction
-   clauses 1-6 have their own theorems on the model (determinism, structure) and are
-   evaluated on traces *)
-Definition walk_clause (id : Z) : bool := (id =? 0) || (8 <=? id).
+(* clauses proved to hold on every model trace (RingHashFlt_proofs.model_trace_holds):
+   decoding (0), size <= max outside the overshoot class (4), ring.pick and picker.Pick
+   (8-12).  Clauses 1, 2 have Prop-level theorems on the model; 3, 6, 7 (lower bound,
+   proportionality, overshoot by at most one) need a float64 error analysis that is not
+   done: they are proved on the real-arithmetic idealisation and evaluated on traces. *)
+Definition walk_clause (id : Z) : bool := (id =? 0) || (id =? 4) || (8 <=? id).
 
 Definition holds_b (cfg : word) (ops obs : list word) : bool :=
   forallb (fun c => negb (walk_clause (fst (fst c))) || snd c) (clauses cfg ops obs).
